@@ -236,7 +236,10 @@ class Oracle:
             if obj is None:
                 return ('refused', rest)
             if not out:
-                out.append(_re.sub(r' at 0x[0-9a-f]+', '', repr(obj))[:3000])
+                try:
+                    out.append(_re.sub(r' at 0x[0-9a-f]+', '', repr(obj))[:3000])
+                except Exception as e:
+                    out.append('repr raises ' + type(e).__name__)
             w = impl_write(obj, v2)
             out.append((v2, w.hex() if w is not None else None))
         return tuple(out)
@@ -1028,6 +1031,10 @@ def constructed_objects(ctx, oracle):
         A.CONTACT_INFORMATION: ['Joe', ''], A.CUSTOM_ATTRIBUTE: ['x', ''],
         A.APPLICATION_SPECIFIC_INFORMATION: [{'application_namespace': 'ssl', 'application_data': 'www.example.com'}],
     }
+    EXTREME_DATES = [0, -1, 2 ** 31, 2 ** 55, 2 ** 56, 2 ** 62, 2 ** 63 - 1, -2 ** 63]
+    for t in A:
+        if t.name.endswith('_DATE'):
+            samples[t] = list(samples.get(t, [])) + [d for d in EXTREME_DATES if d not in samples.get(t, [])]
     attrs_ok = []
     for t in A:
         vals = samples.get(t, [None])
@@ -1037,7 +1044,7 @@ def constructed_objects(ctx, oracle):
         elif t in (A.OBJECT_GROUP, A.CONTACT_INFORMATION, A.OPERATION_POLICY_NAME, A.CUSTOM_ATTRIBUTE, A.UNIQUE_IDENTIFIER):
             vals = list(vals) + sg.TEXT_TRAPS[:8] + sg.TEXT_TRAPS[14:20]
         for val in vals:
-            for idx in ((None, 0, 3) if val in vals[:3] else (None,)):
+            for idx in ((None, 0, 3) if any(val is x for x in vals[:3]) else (None,)):
                 try:
                     a = f.create_attribute(t, val, idx)
                 except Exception:
@@ -1049,6 +1056,14 @@ def constructed_objects(ctx, oracle):
                 out.append(('Attribute', (lambda a=a: a), V1, how))
                 if idx is None and val is vals[0]:
                     attrs_ok.append((t, val))
+
+    # KMIP 2.0 Attributes structures holding one date attribute with an extreme value (the by-tag factory path)
+    for tname in ('ACTIVATION_DATE', 'INITIAL_DATE', 'PROCESS_START_DATE', 'PROTECT_STOP_DATE', 'DEACTIVATION_DATE', 'DESTROY_DATE',
+                  'COMPROMISE_OCCURRENCE_DATE', 'COMPROMISE_DATE', 'ARCHIVE_DATE', 'LAST_CHANGE_DATE', 'ORIGINAL_CREATION_DATE'):
+        tg = getattr(enums.Tags, tname)
+        for d in EXTREME_DATES:
+            out.append(('Attributes', (lambda tg=tg, d=d: objects.Attributes(attributes=[f.value_factory.create_attribute_value_by_enum(tg, d)])), [20],
+                        'Attributes([%s = %d]) built with AttributeValueFactory.create_attribute_value_by_enum' % (tname, d)))
 
     def mk_attrs(k):
         picks = [attrs_ok[(k * 7 + j * 3) % len(attrs_ok)] for j in range(1 + k % 4)]
@@ -1242,6 +1257,86 @@ def constructed_objects(ctx, oracle):
                                       'classes': sorted({e[0] for e in out})}
 
 
+SIZES = [255, 256, 257, 1023, 1024, 1025, 4095, 4096, 4097, 65535, 65536, 65537]
+
+
+def size_probes(ctx, oracle):
+    """Value SIZES: text / byte strings and big integers whose encoded length sits around 2^8, 2^10, 2^12 and 2^16, as bare
+    primitives and inside a few structures.  These long values go through the direct implementation round-trip oracle only
+    (no Coq case: the literals would dominate the case files; lengths 0..41 and 256/257 are in the K pools)."""
+    enums, utils = kmip()
+    from kmip.core import primitives, objects, attributes
+    from kmip.core.messages import messages, contents
+    quick = ctx.tier == 'quick'
+    sizes = SIZES
+    T = enums.Tags.NAME_VALUE
+    n = 0
+    for size in sizes:
+        if oracle.budget.stop('the size probes'):
+            return
+        text = ('k' * 7 + '\u00e9') * (size // 9) + 'z' * (size % 9)          # `size` UTF-8 bytes, multi-byte characters inside
+        text = text[:len(text)]
+        while len(text.encode('utf-8')) > size:
+            text = text[:-1]
+        text += 'z' * (size - len(text.encode('utf-8')))
+        data = bytes((i * 7 + 3) % 256 for i in range(size))
+        big_pos, big_neg = (1 << (8 * size - 1)) - 1, -(1 << (8 * size - 9))
+        prim_cases = [('TextString', lambda: primitives.TextString(text, T), lambda: primitives.TextString(tag=T), text),
+                      ('ByteString', lambda: primitives.ByteString(data, T), lambda: primitives.ByteString(tag=T), data)]
+        if size <= 4097:
+            prim_cases += [('BigInteger', lambda: primitives.BigInteger(big_pos, T), lambda: primitives.BigInteger(tag=T), big_pos),
+                           ('BigInteger', lambda: primitives.BigInteger(big_neg, T), lambda: primitives.BigInteger(tag=T), big_neg)]
+        for pname, mk, blank, val in prim_cases:
+            n += 1
+            ctx.case_seen(('size', pname, size, val < 0 if isinstance(val, int) else 0), nontrivial=True)
+            try:
+                w = impl_write(mk(), 10)
+            except Exception:
+                w = None
+            if w is None:
+                ctx.violation({'class': pname, 'check': 'constructed-value-cannot-be-encoded', 'size': size},
+                              {'class': pname, 'value_bytes': size, 'built': '%s of %d bytes' % (pname, size)}, '%s of %d bytes cannot be encoded' % (pname, size))
+                continue
+            b = blank()
+            try:
+                b.read(utils.BytearrayStream(w))
+                back, err = b.value, None
+            except Exception as e:
+                back, err = None, '%s: %s' % (type(e).__name__, str(e)[:120])
+            s2 = utils.BytearrayStream()
+            again = None
+            if err is None:
+                try:
+                    b.write(s2)
+                    again = bytes(s2.buffer)
+                except Exception as e:
+                    err = 'write of the decoded value: ' + type(e).__name__
+            ctx.count('size.%s.%s' % (pname, 'ok' if err is None and back == val and again == w else 'FAILS'))
+            if err is not None or back != val or again != w:
+                ctx.violation({'class': pname, 'check': 'read(write(x))!=x', 'size': size},
+                              {'class': pname, 'value_bytes': size, 'built': '%s whose value takes %d bytes' % (pname, size),
+                               'encoded_head': w[:24].hex(), 'encoded_length': len(w), 'error': err},
+                              '%s of %d bytes does not survive encode-decode (%s)' % (pname, size, err or 'value or re-encoding differs'))
+        # inside structures (bytes from the independent encoder, then the full accepted-input oracle)
+        if size in (255, 256, 257, 1024, 4097, 65536):
+            name_bs = sg.wrap(0x420053, [sg.enc_prim(0x420055, 'PText', text), sg.enc_prim(0x420054, 'PEnum', 1)])
+            cred_bs = sg.wrap(0x420025, [sg.enc_prim(0x420099, 'PText', text), sg.enc_prim(0x4200a1, 'PText', text[:size // 2])])
+            item_bs = sg.wrap(0x42000f, [sg.enc_prim(0x42007f, 'PEnum', 1), sg.enc_prim(0x42007e, 'PEnum', 1), sg.enc_prim(0x42007d, 'PText', text)])
+            cust_bs = sg.wrap(0x420008, [sg.enc_prim(0x42000a, 'PText', 'x-custom'), sg.enc_prim(0x42000b, 'PText', text)])
+            for cname, cls, bs in (('Name', attributes.Name, name_bs), ('UsernamePasswordCredential', objects.UsernamePasswordCredential, cred_bs),
+                                   ('ResponseBatchItem', messages.ResponseBatchItem, item_bs), ('Attribute', objects.Attribute, cust_bs)):
+                obj, rest = impl_read(cls, bs, 12)
+                ctx.count('size.in-%s.%s' % (cname, 'accepted' if obj is not None else 'REFUSED'))
+                ctx.case_seen(('size', cname, size), nontrivial=True)
+                if obj is None:
+                    oracle.fail(cname, 12, 'valid-encoding-refused', bs[:64], {'built': '%s carrying a text of %d bytes (independent encoder)' % (cname, size),
+                                                                                'encoded_length': len(bs), 'exc': rest}, {'size': size})
+                else:
+                    oracle.accepted(cname, cls, 12, bs, obj, rest, True)
+    ctx.cov['size_probes'] = {'sizes': sizes, 'primitive_round_trips': n,
+                              'note': 'long values (255..65537 bytes) go through the direct implementation round-trip oracle only, not through the Coq comparator'}
+
+
 ODD_NAMES = ['cryptographic algorithm', 'CRYPTOGRAPHIC ALGORITHM', 'Cryptographic algorithm', 'cRYPTOGRAPHIC aLGORITHM', 'name', 'NAME', 'state',
              ' Cryptographic Algorithm', 'Cryptographic Algorithm ', 'Cryptographic  Algorithm', 'Cryptographic.Algorithm', 'CRYPTOGRAPHIC_ALGORITHM',
              'Object Type\x00', '', ' ', 'No Such Attribute', 'x-custom', 'X-custom', 'x-', 'x-Cryptographic Algorithm', 'Unique identifier', 'unique Identifier']
@@ -1342,6 +1437,7 @@ def run(ctx):
     with watchdog(oracle.budget, hard, 'baseline, probes and constructed objects'):
         oracle.take_baseline()
         probes(ctx, oracle)
+        size_probes(ctx, oracle)
         constructed_objects(ctx, oracle)
         odd_inputs(ctx, oracle)
 
